@@ -34,7 +34,11 @@ use std::io::Write;
 use std::process::{Command, Stdio};
 use std::time::{Duration, Instant};
 
-const VERIF_DIR: &str = "/verif";
+/// Where known_findings.json, replays/ and evidence/ live. Always /verif for registered checks;
+/// the mutation sweep (bin/mutation-sweep) points a private copy somewhere else.
+fn verif_dir() -> String {
+    std::env::var("BTCMON_VERIF_DIR").unwrap_or_else(|_| "/verif".to_string())
+}
 
 fn usage() -> ! {
     eprintln!("usage: btcmon check <ID> [--tier quick|thorough] [--replay file] | btcmon worker ...");
@@ -118,7 +122,7 @@ struct Known {
 }
 
 fn load_known() -> Vec<Known> {
-    let p = format!("{}/known_findings.json", VERIF_DIR);
+    let p = format!("{}/known_findings.json", verif_dir());
     let Ok(s) = std::fs::read_to_string(&p) else {
         return vec![];
     };
@@ -165,7 +169,7 @@ fn orchestrate(a: &[String]) {
     let budget: f64 = std::env::var("VERIF_BUDGET_S").ok().and_then(|s| s.parse().ok()).unwrap_or(default_budget);
     let nshards: u64 = std::env::var("VERIF_SHARDS").ok().and_then(|s| s.parse().ok()).unwrap_or(16);
     let exe = std::env::current_exe().unwrap();
-    let run_dir = format!("{}/harness/target/run/{}-{}-{}", VERIF_DIR, prop, tier_s, std::process::id());
+    let run_dir = format!("{}/harness/target/run/{}-{}-{}", verif_dir(), prop, tier_s, std::process::id());
     std::fs::create_dir_all(&run_dir).unwrap();
     let start = Instant::now();
 
@@ -296,12 +300,12 @@ fn orchestrate(a: &[String]) {
     for (sig, (desc, n)) in &known_hits {
         writeln!(o, "KNOWN-FINDING: property={} {} [{}; observed {} time(s) in this run]", prop, desc, sig, n).unwrap();
     }
-    std::fs::create_dir_all(format!("{}/replays", VERIF_DIR)).unwrap();
+    std::fs::create_dir_all(format!("{}/replays", verif_dir())).unwrap();
     let mut printed = BTreeSet::new();
     for v in real.iter() {
         let lane = v["lane"].as_str().unwrap_or("");
         let case = v["case"].as_u64().unwrap_or(0);
-        let path = format!("{}/replays/{}-{}-{}-{}.json", VERIF_DIR, prop, seed, lane, case);
+        let path = format!("{}/replays/{}-{}-{}-{}.json", verif_dir(), prop, seed, lane, case);
         if printed.insert(path.clone()) {
             let rep = json!({"property": prop, "seed": seed, "tier": tier_s, "lane": lane, "case": case,
                 "summary": v["summary"], "detail": v["detail"],
@@ -340,8 +344,8 @@ fn orchestrate(a: &[String]) {
         "violations": real.len(),
     });
     if replay.is_none() {
-        std::fs::create_dir_all(format!("{}/evidence", VERIF_DIR)).unwrap();
-        std::fs::write(format!("{}/evidence/{}.json", VERIF_DIR, prop), serde_json::to_vec_pretty(&ev).unwrap()).unwrap();
+        std::fs::create_dir_all(format!("{}/evidence", verif_dir())).unwrap();
+        std::fs::write(format!("{}/evidence/{}.json", verif_dir(), prop), serde_json::to_vec_pretty(&ev).unwrap()).unwrap();
     }
     writeln!(
         o,
